@@ -518,7 +518,8 @@ def run_plan(b, cap, planner=None, set_discount=None):
         pol = []
         for s in sl:
             pol.append([float(r.policy[s][a]) for a in al])
-        return {"its": int(r.iterations), "conv": bool(r.converged),
+        return {"_obj": r,                           # kept: read again after later plan_on calls (aliasing histories)
+                "its": int(r.iterations), "conv": bool(r.converged),
                 "gain": [float(r.state_gain[s]) for s in sl],
                 "val": [float(r.state_value[s]) for s in sl],
                 "gq": [[float(r.action_gain[s][a]) for a in al] for s in sl],
@@ -526,6 +527,13 @@ def run_plan(b, cap, planner=None, set_discount=None):
                 "polw": pol, "init_gain": float(r.initial_gain), "init_value": float(r.initial_value)}
     except Exception as e:                           # noqa: BLE001 - judged by the caller
         return {"error": type(e).__name__, "msg": str(e)[:200]}
+
+
+def reread(b, r):
+    """The tables of an EARLIER result object, read again now (after later plan_on calls on other MDPs)."""
+    sl = list(b.mdp.state_list)
+    return {"gain": [float(r.state_gain[s]) for s in sl], "val": [float(r.state_value[s]) for s in sl],
+            "init_gain": float(r.initial_gain), "init_value": float(r.initial_value)}
 
 
 def run_fn(b, rule, cap, discount):
@@ -582,11 +590,14 @@ NAN_ROW_SIGNATURE = "C16:MultichainPolicyIteration.plan_on:policy-nan-row:roundo
 
 
 def nan_rows_by_roundoff(o, mrec, scale):
-    """Rows of the returned policy that are NaN exactly because plan_on intersects the maximisers of action_gain and
-    of action_value at an ABSOLUTE tolerance 10**-VALUE_DECIMAL_PRECISION = 1e-10 (rtol = 0): with round-off above
-    1e-10 in those tables the intersection is empty and the row is 0/0.  Recognised from the reported tables: the
-    NaN rows are precisely the rows where that test leaves nothing, and at a tolerance relative to the magnitude of
-    the data the surviving actions are exactly the support of the exact machine.  Returns the rows or None."""
+    """Recognises the REGRESSION of a defect that msdm fixed in ca7fa02 / c58857c (known_findings: status fixed, which
+    suppresses nothing - a NaN row is always a VIOLATION, this only chooses the signature).  Before the fix plan_on
+    intersected the maximisers of action_gain and of action_value at an ABSOLUTE tolerance 1e-10 (rtol = 0): with
+    round-off above 1e-10 in those tables the intersection was empty and the row 0/0.  Since c58857c the tolerance is
+    1e-10 * (largest finite table entry) and the value maximisers are taken among the gain maximisers, so a row cannot
+    be empty any more.  Recognised from the reported tables: the NaN rows are precisely the rows where the OLD absolute
+    test leaves nothing, and at a tolerance relative to the magnitude of the data the surviving actions are exactly
+    the support of the exact machine.  Returns the rows or None (then the generic policy-support signature is used)."""
     if mrec["phase"] != "done" or not mrec.get("sup"):
         return None
     rows = []
@@ -794,6 +805,22 @@ def judge_cases(ctx, cases, *, tamper_build=None, tamper_real=None, steps=True):
                 if all(1 <= o["pol"][s] <= mp["K"] for s in range(mp["N"])):
                     judge_batch.append(dict(base, w=rows, exp=orc["v"], tag=f"{i}:{','.join(map(str, key))}"))
         pending.append((i, c, b, mp, role, orc, exact, myruns, outs))
+    # ---- call history, part 2: every earlier result object is read again now that all later plan_on calls of the
+    # chunk (same and other planner objects, many MDPs with the same number of states, other rewards) have run; a
+    # result must be a value, not a view of something a later call overwrites.  What changed is judged again.
+    for i, c, b, mp, role, orc, exact, myruns, outs in pending:
+        o = outs["plan"]
+        r = o.pop("_obj", None)
+        if r is None or "error" in o:
+            continue
+        try:
+            late = reread(b, r)
+        except Exception as e:                       # noqa: BLE001
+            late = {"error": type(e).__name__}
+        first = {k: o[k] for k in ("gain", "val", "init_gain", "init_value")}
+        if tamper_real is None and repr(late) != repr(first):
+            o["late"] = late
+        ctx.count("call_history:earlier_result_read_again_after_later_calls")
     jby = {}
     if judge_batch:
         jres = run_tlc(ctx.workdir / "judge", MODULE, CFG_JUDGE, files={"batch.json": judge_batch},
@@ -905,19 +932,38 @@ def judge_one(ctx, jby, steps, i, c, b, mp, role, orc, exact, myruns, outs):
                     ctx.drift("tie-window", {"case": digest(c), "run": tag, "got": got, "optimum": [str(x) for x in exact]})
             return excused
 
+        state_bad = False
         for s in range(N):
             if dev(got[s], exact[s], scale) == "bad":
                 run_ok = False
+                state_bad = True
                 if not window():
                     fail(clause, f"{clause}[{s}] = {got[s]!r} but the optimum is {exact[s]} = {float(exact[s])!r} (converged after {o['its']} iterations)",
                          {"optimum": [str(x) for x in exact], "got": got})
                 break
+        # ---- the same result object read again after all later plan_on calls of the chunk: whatever changed is judged
+        # like a fresh result (a result that is a view of a shared buffer shows another problem's numbers)
+        if plan and o.get("late"):
+            late = o["late"]
+            run_ok = False
+            if "error" in late:
+                fail("reread-raises", f"reading the earlier result again raised {late['error']}")
+            else:
+                lgot = late["val"] if disc else late["gain"]
+                for s in range(N):
+                    if dev(lgot[s], exact[s], scale) == "bad":
+                        fail(clause + "[result read again after later plan_on calls]",
+                             f"{clause}[{s}] of the SAME result object was {got[s]!r} right after the call and is {lgot[s]!r} after later "
+                             f"plan_on calls on other MDPs; the optimum is {float(exact[s])!r}", {"first": got, "late": lgot})
+                        break
+                else:
+                    ctx.drift("reread", {"case": digest(c), "run": tag, "first": got, "late": lgot})
         # ---- clauses on the returned policy
         if plan:
             if o.get("rows_ok") is False and nanrows:
-                # genuine msdm defect with its own signature: converged, values / gains right, but the policy rows
-                # `nanrows` are 0/0 because the absolute 1e-10 tie test of the policy extraction is below the
-                # round-off of tables of this magnitude
+                # regression of the defect fixed in ca7fa02 / c58857c, with its own signature: converged, values / gains
+                # right, but the policy rows `nanrows` are 0/0 because an absolute 1e-10 tie test of the policy
+                # extraction is below the round-off of tables of this magnitude
                 case_ok = False
                 run_ok = False
                 ctx.violation(NAN_ROW_SIGNATURE,
@@ -949,19 +995,21 @@ def judge_one(ctx, jby, steps, i, c, b, mp, role, orc, exact, myruns, outs):
                                                        f"{fr(jr['pv'][s], rd)}, the optimum is {exact[s]}",
                                      {"policy_value": jr["pv"], "optimum": orc["v"], "rd": rd})
                             break
-        # ---- clause: aggregates over the initial distribution
+        # ---- clause: aggregates over the initial distribution = the optimal value / gain of the initial distribution.
+        # (The statement's "state values / per-state gain equal the optimum", read on the initial distribution the
+        # result reports them for.)  Excused by the tie window only together with an excused per-state deviation it is
+        # the probability-weighted sum of.
         if plan:
             einit = fr(orc["init"], rd)
-            if disc:
-                if dev(o["init_value"], einit, scale) == "bad":
-                    run_ok = False
-                    if not window():
-                        fail("initial_value", f"initial_value = {o['init_value']!r}, optimal value of the initial distribution is {einit}")
-            else:
-                if dev(o["init_gain"], einit, scale) == "bad":
-                    run_ok = False
-                    if not window():
-                        fail("initial_gain", f"initial_gain = {o['init_gain']!r}, optimal gain of the initial distribution is {einit}")
+            name, rep_init = ("initial_value", o["init_value"]) if disc else ("initial_gain", o["init_gain"])
+            if dev(rep_init, einit, scale) == "bad":
+                run_ok = False
+                weighted = sum(F(mp["p0"][s], mp["ID"]) * F(got[s]) for s in range(N) if mp["p0"][s]) \
+                    if all(math.isfinite(x) for x in got) else None
+                consistent = weighted is not None and dev(rep_init, weighted, scale) == "ok"
+                if not (state_bad and consistent and window()):
+                    fail(name, f"{name} = {rep_init!r}, the optimal {'value' if disc else 'gain'} of the initial distribution "
+                               f"{[str(F(x, mp['ID'])) for x in mp['p0']]} is {einit} = {float(einit)!r}")
         if run_ok and why is None:
             ctx.validated += 1
 
